@@ -17,6 +17,9 @@ BASE_MIX = [
 ]
 
 N_WORLDS = {"quick": 320, "thorough": 7000}
+# direct-drive simulations with the chaos policy (vmon/direct.py): multi-timestamp graphs, hostile decisions
+N_DIRECT = {"quick": 480, "thorough": 12000}
+DIRECT_PIDS = ("C01", "C02", "C03", "C05")
 
 RULES = {
     "C01": ("a world in which at some instant >=2 tasks were co-resident on one worker, or a placement was "
@@ -61,13 +64,52 @@ class E2ECheck:
                 specs.append({"seed": seed, "profile": profile, "over": over, "start": start,
                               "count": min(per, cnt - start), "pid": self.pid})
                 start += per
+        if self.pid in DIRECT_PIDS:
+            nd = int(os.environ.get("VERIF_N_DIRECT", N_DIRECT[tier]))
+            per = -(-nd // 8)
+            for start in range(0, nd, per):
+                specs.append({"seed": seed, "kind": "direct", "profile": "direct", "over": {}, "start": start,
+                              "count": min(per, nd - start), "pid": self.pid})
         return specs
 
     def replay_spec(self, case):
-        return {"seed": case["seed"], "profile": case["profile"], "over": case["over"],
+        spec = {"seed": case["seed"], "profile": case["profile"], "over": case["over"],
                 "start": case["index"], "count": 1, "pid": self.pid, "replay": True}
+        if case["profile"] == "direct":
+            spec["kind"] = "direct"
+        return spec
+
+    def run_direct_shard(self, spec):
+        from .. import direct
+        out = []
+        for idx in range(spec["start"], spec["start"] + spec["count"]):
+            world = direct.gen_direct((spec["seed"], idx))
+            ctx = direct.run_direct(world)
+            flags = set(ctx.flags)
+            if "planned_before_release" in flags:
+                flags.add("plan_ahead")
+            counters = {"direct_" + k: v for k, v in ctx.counters.items()}
+            counters["direct_worlds"] = 1
+            counters["direct_multi_timestamp_graphs"] = sum(1 for g in world["graphs"] if g["kind"] == "stream")
+            if ctx.ended:
+                counters["ev_SIMULATOR_END"] = 1
+            viol = [dict(v, case={"seed": spec["seed"], "profile": "direct", "over": {}, "index": idx}, case_id=f"direct/{idx}",
+                         facts={"scheduler": "Chaos", "direct": True}) for v in ctx.viol if v["prop"] == self.pid]
+            s = {"index": idx, "profile": "direct", "hash": common.case_hash(world), "status": ctx.status, "exception": ctx.exception,
+                 "flags_seen": sorted(flags), "counters": counters, "viol": viol, "scheduler": "Chaos(direct)", "work_conserving": False,
+                 "cell": ["Chaos", world["frequency"], 0], "end": None, "ntasks": len(ctx.rec), "wall": round(ctx.wall, 3)}
+            if ctx.status == "exception":
+                s["counters"]["direct_exception"] = 1
+            if idx % 150 == 0:
+                s["sample"] = {"direct": True, "policy": world["policy"], "graphs": [{"kind": g["kind"], "tasks": len(g["tasks"]), "edges": len(g["edges"])}
+                                                                                      for g in world["graphs"]], "status": ctx.status,
+                               "starts": ctx.counters.get("starts", 0)}
+            out.append(s)
+        return {"worlds": out}
 
     def run_shard(self, spec, workdir):
+        if spec.get("kind") == "direct":
+            return self.run_direct_shard(spec)
         from .. import e2e
         out = []
         for idx in range(spec["start"], spec["start"] + spec["count"]):
@@ -152,13 +194,17 @@ class E2ECheck:
         p = self.pid
         if p == "C01":
             return [("shadow capacity check after live place/load", tot.get("c01_checks", 0), 500),
+                    ("direct-drive recount after place_task under the chaos policy", tot.get("direct_live_place", 0), 1000),
                     ("utilization rows vs shadow", tot.get("utilization_rows", 0), 500)]
         if p == "C02":
-            return [("Task.start ordering automaton", tot.get("starts", 0), 1000)]
+            return [("Task.start ordering automaton", tot.get("starts", 0), 1000),
+                    ("direct-drive starts of tasks with parents under the chaos policy", tot.get("direct_starts_with_parents", 0), 1000),
+                    ("direct-drive multi-timestamp graphs", tot.get("direct_multi_timestamp_graphs", 0), 200)]
         if p == "C03":
             return [("completion exactness", tot.get("completions_checked", 0), 1000),
                     ("queue order at pop", tot.get("pops", 0), 5000),
-                    ("first placement attempts judged", tot.get("started_at_chosen_time", 0), 500)]
+                    ("first placement attempts judged", tot.get("started_at_chosen_time", 0), 500),
+                    ("due-completion checks (e2e + direct)", tot.get("due_completion_checks", 0) + tot.get("direct_due_completion_checks", 0), 5000)]
         if p == "C05":
             return [("terminated runs", tot.get("ev_SIMULATOR_END", 0), 200)]
         if p == "C06":
